@@ -29,7 +29,7 @@ func runSelftest(repo, verif string, args []string) int {
 	self, _ := os.Executable()
 	var mu sync.Mutex
 	var wg sync.WaitGroup
-	sem := make(chan struct{}, 5)
+	sem := make(chan struct{}, 2)
 	for _, p := range pats {
 		p := p
 		wg.Add(1)
@@ -102,6 +102,16 @@ func runOneMutant(p string, only map[string]bool, scratchRoot, repo, verif, self
 			out := buf.String()
 			caught := err != nil && strings.Contains(out, "VIOLATION property="+pr)
 			named := expect == "" || strings.Contains(out, expect)
+			if expect == "" && caught {
+				// without a named obligation only definitive failures count (a time-out under load is not a detection)
+				definitive := false
+				for _, l := range strings.Split(out, "\n") {
+					if strings.Contains(l, "failed obligation:") && !strings.Contains(l, "answered unknown") && !strings.Contains(l, "answered timeout") {
+						definitive = true
+					}
+				}
+				caught = definitive
+			}
 			if caught && named {
 				fmt.Printf("ok   %s: %s fails", name, pr)
 				if expect != "" {
